@@ -83,3 +83,24 @@ func signChainSources() [][]byte {
 	}
 	return out
 }
+
+// heredocLookalikes: valid heredocs / nowdocs whose body has lines that START like the closing label but go on
+// with a label character (digit, letter, underscore, byte >= 0x80), with and without indentation, plus a shorter
+// prefix of the label and the label in another case — none of them ends the string, in any PHP version.
+func heredocLookalikes() [][]byte {
+	var out [][]byte
+	for _, label := range []string{"SQL", "A", "EOT", "X_1"} {
+		for qi, open := range []string{"<<<%s", "<<<'%s'", "<<<\"%s\""} {
+			for _, suffix := range []string{"1", "9", "a", "Z", "_", "_x", "\x80", "\xc3\xa9"} {
+				for _, indent := range []string{"", "  ", "\t"} {
+					body := "first line\n" + indent + label + suffix + " rest\n" + indent + label[:len(label)-1] + "\nlast"
+					if qi != 1 {
+						body += " $v"
+					}
+					out = append(out, []byte("<?php\n$q = "+strings.ReplaceAll(open, "%s", label)+"\n"+body+"\n"+label+";\n$after = 1;\n"))
+				}
+			}
+		}
+	}
+	return out
+}
